@@ -662,8 +662,10 @@ Qed.
    (identical object re-delivered, or an edit of flow control / logging / other policies) *)
 Definition window_op (s0 : cstate) (ups : eplist) (o : cop) : Prop :=
   o = OPick ups \/
-  exists es ds, o = OServers es ds /\ same_set es (servers s0) = true /\
-                (forall e, zin e ds = zin e (disabled s0)).
+  (exists es ds, o = OServers es ds /\ same_set es (servers s0) = true /\
+                 (forall e, zin e ds = zin e (disabled s0))) \/
+  (* a status write that changes nothing: the health checker records the result the endpoint already has *)
+  (exists e, o = OReady e (zin e (readyset s0))).
 
 Definition is_pick (o : cop) : bool := match o with OPick _ => true | _ => false end.
 Definition npicks (ops : list cop) : nat := List.length (filter is_pick ops).
@@ -673,20 +675,45 @@ Definition pickres (ops : list cop) (rs : list pres) : list pres :=
 Lemma pop_ext cur ups ok ok' : (forall e, ok e = ok' e) -> pop cur ups ok = pop cur ups ok'.
 Proof. intros H. unfold pop. rewrite (filter_ext ok ok' H). reflexivity. Qed.
 
+Lemma filter_all_true {A} (f : A -> bool) l : (forall x, In x l -> f x = true) -> filter f l = l.
+Proof.
+  induction l as [|x r IH]; intros H; [reflexivity|]. simpl. rewrite (H x (or_introl eq_refl)). f_equal.
+  apply IH. intros y Hy. apply H. right. exact Hy.
+Qed.
+
+Lemma zin_In x l : zin x l = true <-> In x l.
+Proof.
+  unfold zin. rewrite existsb_exists. split.
+  - intros [y [Hy E]]. apply Z.eqb_eq in E. subst. exact Hy.
+  - intros H. exists x. split; [exact H|apply Z.eqb_refl].
+Qed.
+
+(* recording the health an endpoint already has leaves the whole state as it is *)
+Lemma noop_write s e : fst (cstep s (OReady e (zin e (readyset s)))) = s.
+Proof.
+  unfold cstep. destruct (negb (zin e (servers s))); [reflexivity|]. cbn [fst].
+  destruct (zin e (readyset s)) eqn:Z.
+  - destruct s; reflexivity.
+  - rewrite filter_all_true; [destruct s; reflexivity|].
+    intros x Hx. destruct (x =? e) eqn:E; [|reflexivity].
+    assert (x = e) by lia. subst x. apply zin_In in Hx. congruence.
+Qed.
+
 Lemma window_picks s0 ups : forall ops s,
-  servers s = servers s0 -> (forall e, zin e (disabled s) = zin e (disabled s0)) ->
+  servers s = servers s0 -> readyset s = readyset s0 -> (forall e, zin e (disabled s) = zin e (disabled s0)) ->
   (forall e, is_ok s e = is_ok s0 e) ->
   Forall (window_op s0 ups) ops ->
   pickres ops (crun s ops) = snd (pops (curs s) (repeat ups (npicks ops)) (is_ok s0)).
 Proof.
-  induction ops as [|o r IH]; intros s Hs Hd Hok W; [reflexivity|].
-  inversion W as [|? ? W1 W2]; subst. destruct W1 as [->|(es & ds & -> & SS & DS)].
+  induction ops as [|o r IH]; intros s Hs Hr Hd Hok W; [reflexivity|].
+  inversion W as [|? ? W1 W2]; subst.
+  destruct W1 as [->|[(es & ds & -> & SS & DS)|(e & ->)]].
   - (* a pick *)
     unfold npicks, pickres. cbn [crun cstep filter is_pick List.length repeat pops].
     rewrite (pop_ext (curs s) ups (is_ok s) (is_ok s0) Hok).
     destruct (pop (curs s) ups (is_ok s0)) as [c p] eqn:E.
     set (s1 := {| servers := servers s; readyset := readyset s; disabled := disabled s; curs := c |}).
-    specialize (IH s1 Hs Hd Hok W2). unfold npicks, pickres in IH. cbn [curs s1] in IH.
+    specialize (IH s1 Hs Hr Hd Hok W2). unfold npicks, pickres in IH. cbn [curs s1] in IH.
     cbn [combine filter fst is_pick map snd].
     destruct (pops c (repeat ups (List.length (filter is_pick r))) (is_ok s0)) as [c2 l] eqn:E2.
     cbn [snd] in *. f_equal. exact IH.
@@ -697,7 +724,13 @@ Proof.
     cbn [combine filter fst is_pick].
     assert (Hok1 : forall e, is_ok s1 e = is_ok s0 e).
     { intros e. rewrite <- Hok. unfold is_ok, s1; cbn [servers readyset disabled]. rewrite Hs, DS, Hd. reflexivity. }
-    specialize (IH s1 eq_refl DS Hok1 W2). unfold npicks, pickres in IH. exact IH.
+    specialize (IH s1 eq_refl Hr DS Hok1 W2). unfold npicks, pickres in IH. exact IH.
+  - (* a status write that changes nothing *)
+    unfold npicks, pickres. cbn [crun filter is_pick]. rewrite <- Hr.
+    pose proof (noop_write s e) as NW.
+    destruct (cstep s (OReady e (zin e (readyset s)))) as [s1 x] eqn:E. cbn [fst] in NW. subst s1.
+    cbn [combine filter fst is_pick].
+    specialize (IH s Hs Hr Hd Hok W2). unfold npicks, pickres in IH. exact IH.
 Qed.
 
 (* C14_strict across Syncs: in a window whose ops are picks of one policy (explicit subset [ups]) and Syncs that
@@ -713,7 +746,7 @@ Theorem strict_sync s ups ops e :
   N / k <= pcount e (pickres ops (crun s ops)) <= ceil_div N k.
 Proof.
   intros rd k N Hk ND Hin H0 Hw W.
-  rewrite (window_picks s ups ops s eq_refl (fun _ => eq_refl) (fun _ => eq_refl) W).
+  rewrite (window_picks s ups ops s eq_refl eq_refl (fun _ => eq_refl) (fun _ => eq_refl) W).
   assert (Hw' : get (curs s) rd + Z.of_nat 0 + Z.of_nat (npicks ops) < two64) by (unfold N in Hw; lia).
   pose proof (strict (curs s) ups (is_ok s) e 0 (npicks ops) Hk ND Hin H0 Hw') as S.
   cbn [Nat.add skipn] in S. exact S.
@@ -762,4 +795,22 @@ Proof.
   assert (Hw' : get (qcur s) rd + Z.of_nat 0 + Z.of_nat (nfwd (qzero s) ops) < two64) by (unfold F in Hw; lia).
   pose proof (strict (qcur s) ups ok e 0 (nfwd (qzero s) ops) Hk ND Hin H0 Hw') as S.
   cbn [Nat.add skipn] in S. exact S.
+Qed.
+
+(* picks under interleaved writes that change nothing (and Syncs that add / remove nothing) = the picks alone *)
+Theorem idempotent_status_write_invisible s ups ops :
+  Forall (window_op s ups) ops ->
+  pickres ops (crun s ops) = snd (pops (curs s) (repeat ups (npicks ops)) (is_ok s)) /\
+  pickres ops (crun s ops) = pickres (filter is_pick ops) (crun s (filter is_pick ops)).
+Proof.
+  intros W.
+  pose proof (window_picks s ups ops s eq_refl eq_refl (fun _ => eq_refl) (fun _ => eq_refl) W) as A.
+  split; [exact A|]. rewrite A.
+  assert (W' : Forall (window_op s ups) (filter is_pick ops)).
+  { apply Forall_forall. intros o Ho. apply filter_In in Ho as [Ho _].
+    rewrite Forall_forall in W. apply W, Ho. }
+  rewrite (window_picks s ups (filter is_pick ops) s eq_refl eq_refl (fun _ => eq_refl) (fun _ => eq_refl) W').
+  unfold npicks. assert (FF : filter is_pick (filter is_pick ops) = filter is_pick ops).
+  { clear. induction ops as [|o r IH]; [reflexivity|]. simpl. destruct (is_pick o) eqn:E; simpl; rewrite ?E, IH; reflexivity. }
+  rewrite FF. reflexivity.
 Qed.
